@@ -415,6 +415,9 @@ func (s *Server) Put(gStream protoobject.ObjectService_PutServer) error {
 	for {
 		if req, err = gStream.Recv(); err != nil {
 			if errors.Is(err, io.EOF) {
+				if s.fsChain.LocalNodeUnderMaintenance() {
+					return s.sendStatusPutResponse(gStream, apistatus.ErrNodeUnderMaintenance, reqFirst)
+				}
 				resp, err = ps.close()
 				err = s.sendPutResponse(gStream, resp, err, reqFirst)
 				return err
